@@ -382,7 +382,7 @@ theorem value_rt (e : BEnv) (Γ : Ctx) (fac : Factory) (n : Nat) (ih : IH e Γ f
     (hx : valueOKj (valOKj e Γ fac n) Γ fac var x = true) :
     ∃ j, encVarWith fac (encModelF Γ fac {} n) var x = .ok j ∧ j.isNull = isNoneV x ∧ j.native = true ∧
       varMatches (keyOf var.toVarCore) j var = true ∧
-      ∃ j', unwrapValue var j = .ok j' ∧
+      ∃ j', unwrapValue var j = .ok j' ∧ (j'.isNull && var.listElement) = false ∧
         bindValueWith e (bindDataclassF e Γ n) Γ cfg m var j' = ND.pure x := by
   obtain ⟨h1, h2, h3, h4, h5, h6, h7⟩ := varOKj_facts hv
   unfold valueOKj at hx
@@ -419,13 +419,13 @@ theorem value_rt (e : BEnv) (Γ : Ctx) (fac : Factory) (n : Nat) (ih : IH e Γ f
         simp only [encCoreWith, hjs]; rfl
       cases hw : wrapperName var.toVarCore with
       | none =>
-        refine ⟨.arr js, ?_, rfl, hnat, ?_, .arr js, ?_, hbind⟩
+        refine ⟨.arr js, ?_, rfl, hnat, ?_, .arr js, ?_, by simp [J.isNull], hbind⟩
         · simp only [encVarWith, hw, hcore]
-        · simp [varMatches, keyOf, hw, J.isArr, varIsList, hl]
+        · simp [varMatches, keyOf, hw, J.isArr, J.isNull, varIsList, hl]
         · simp [unwrapValue, hw]
       | some w =>
         have hne := (varOKj_wrapper hv w hw).2
-        refine ⟨.obj [(var.localName, .arr js)], ?_, rfl, ?_, ?_, .arr js, ?_, hbind⟩
+        refine ⟨.obj [(var.localName, .arr js)], ?_, rfl, ?_, ?_, .arr js, ?_, by simp [J.isNull], hbind⟩
         · simp only [encVarWith, hw, hcore, Except.map, fac_apply_single]
         · have hnl : J.nativeList js = true := by simpa only [J.native] using hnat
           simp [J.native, J.nativePairs, hnl]
@@ -454,7 +454,7 @@ theorem value_rt (e : BEnv) (Γ : Ctx) (fac : Factory) (n : Nat) (ih : IH e Γ f
     have hb : bindValueWith e (bindDataclassF e Γ n) Γ cfg m var j = ND.pure x := by
       rw [bindValue_nonarr e _ Γ cfg m var h1 j harr]; exact hd
     have hu : unwrapValue var j = .ok j := by simp [unwrapValue, hw]
-    refine ⟨j, ?_, hnull, hnat, hm, j, hu, hb⟩
+    refine ⟨j, ?_, hnull, hnat, hm, j, hu, by simp [hl'], hb⟩
     cases x with
     | none =>
       simp only [encElemWith, encItemWith] at hj
@@ -551,7 +551,7 @@ theorem bindPairs_eq (e : BEnv) (recD : Rec) (Γ : Ctx) (cfg : ParserConfig) (m 
     ∀ (vars' : List XmlVar) (P : Params),
       (∀ var ∈ vars',
         findVar vars (keyOf var.toVarCore) (jOf fac recE fs var) = some var ∧
-        (∃ j', unwrapValue var (jOf fac recE fs var) = .ok j' ∧
+        (∃ j', unwrapValue var (jOf fac recE fs var) = .ok j' ∧ (j'.isNull && var.listElement) = false ∧
           bindValueWith e recD Γ cfg m var j' = ND.pure (xOf fs var)) ∧
         (var.init = true ∨ fixedOK e var (xOf fs var) = true) ∧
         (∀ w, wrapperName var.toVarCore = some w → var.localName ≠ w)) →
@@ -562,7 +562,7 @@ theorem bindPairs_eq (e : BEnv) (recD : Rec) (Γ : Ctx) (cfg : ParserConfig) (m 
   | nil => intro P _; rfl
   | cons var rest ih =>
     intro P h
-    obtain ⟨hfind, ⟨j', hun, hbind⟩, hinit, hwne⟩ := h var (List.mem_cons_self ..)
+    obtain ⟨hfind, ⟨j', hun, hnl, hbind⟩, hinit, hwne⟩ := h var (List.mem_cons_self ..)
     have hrest := fun P' => ih P' (fun v hv => h v (List.mem_cons_of_mem _ hv))
     simp only [List.map_cons, List.foldl_cons]
     by_cases hk : keepP fac (pairOf fac recE fs var) = true
@@ -571,7 +571,7 @@ theorem bindPairs_eq (e : BEnv) (recD : Rec) (Γ : Ctx) (cfg : ParserConfig) (m 
       have hun' : unwrapFor var (pairOf fac recE fs var).1 (pairOf fac recE fs var).2 = .ok j' := by
         rw [unwrapFor_keyOf var hwne fac recE fs]; exact hun
       unfold bindPairsWith
-      simp only [hfind', hun', hbind, nd_pure_bind]
+      simp only [hfind', hun', hnl, Bool.false_eq_true, if_false, hbind, nd_pure_bind]
       by_cases hi : var.init = true
       · simp only [hi, if_true]
         rw [hrest]
@@ -748,7 +748,7 @@ theorem rt_step (e : BEnv) (Γ : Ctx) (fac : Factory) (n : Nat) (ih : IH e Γ fa
       (jOf fac (encModelF Γ fac {} n) fs var).isNull = isNoneV (xOf fs var) ∧
       (jOf fac (encModelF Γ fac {} n) fs var).native = true ∧
       varMatches (keyOf var.toVarCore) (jOf fac (encModelF Γ fac {} n) fs var) var = true ∧
-      ∃ j', unwrapValue var (jOf fac (encModelF Γ fac {} n) fs var) = .ok j' ∧
+      ∃ j', unwrapValue var (jOf fac (encModelF Γ fac {} n) fs var) = .ok j' ∧ (j'.isNull && var.listElement) = false ∧
         bindValueWith e (bindDataclassF e Γ n) Γ cfg m var j' = ND.pure (xOf fs var) := by
     intro cfg var hvar
     obtain ⟨x, hget, hval, _⟩ := hvars var hvar
